@@ -11,7 +11,9 @@
 (*   p, id, api, rep ("coord" | "array"), src ("coords" | "limits" |       *)
 (*   "free" | "distorted"), lat (equilateral lattice instance), off,       *)
 (*   exact (nbr: all vertex arithmetic of the instance is exact)           *)
-(*   construct: c, fl, w, xo, yo, tris, tris_arr, tris_vi, n, area2        *)
+(*   construct: c, fl, w, xo, yo, tris, tris_arr, tris_vi, n, area2,       *)
+(*              mv, mi (given vertices / 0-based index triples, or empty)  *)
+(*   dt: representation of the vertex array given (f64, i64, i32, f32)    *)
 (*   up / nbr / sel: pre, post, post_arr, n_pre, n_post, area2_pre,        *)
 (*                   area2_post, idx (0-based, sel only)                   *)
 (*   contain: tris, shapes, reported (0-based index lists, one per shape)  *)
@@ -45,6 +47,11 @@ Clauses(r) ==
               \* integer-coordinate representation: triangle k is the lattice triangle of coordinate k
               Cl("coordinate-form-is-lattice-triangle",
                  r.rep = "coord" => Geo(r.tris) = Geo(TrisOf(r.c, r.fl, r.w, r.xo, r.yo))),
+              \* vertex-array representation built from given vertices mv and (0-based) index triples mi, directly,
+              \* through with_vertices or through for_indexes: its triangles are the given vertices at the given indices
+              Cl("array-form-is-the-given-vertices-at-the-given-indices",
+                 r.mi # << >> => /\ \A k \in DOMAIN r.mi : Len(r.mi[k]) = 3 /\ \A j \in 1 .. 3 : r.mi[k][j] + 1 \in DOMAIN r.mv
+                                /\ SameBag(r.tris, FromVI(r.mv, [k \in DOMAIN r.mi |-> Plus1(r.mi[k])]))),
               Cl("representations-agree", SameBag(r.tris, r.tris_arr) /\ SameBag(r.tris, r.tris_vi)),
               Cl("len-and-area-are-geometric", Measures(r.n, r.area2, r.tris)) >>
       [] r.api = "up" ->
